@@ -78,8 +78,7 @@ def main():
              {"name": "gen", "path": "gen/", "serves_properties": props, "kind_free_text": "translator /repo/src/*.go -> Gen/Generated.v (tables, limits)"}],
          "checks": checks,
          "notes": "every check: proofs re-checked (make + Props recompiled), generated tables regenerated from /repo, correspondence on generated cases, property oracle on the implementation; see DESIGN.md"}
-    if na:
-        m["not_applicable"] = na
+    m["not_applicable"] = na
     json.dump(m, open(os.path.join(VERIF, "MANIFEST.json"), "w"), indent=1)
     print("claimed:", [c["property_id"] for c in checks])
 
